@@ -26,12 +26,15 @@ structure TF where
   v : Val
   bytes : Bytes
   present : Bool
+  /-- `false` for a `Vec` field: its elements are read back only if what follows does not begin with the
+  field's own number. -/
+  strict : Bool := true
 
 def TF.OK (q : TF) : Prop :=
   q.f.tag = some q.t ∧ Ty.ser q.f.ty q.f.len q.f.enc (some q.t) q.v = .ok q.bytes ∧
   (if q.present then
-      q.bytes ≠ [] ∧ ∀ x, (∃ r, tagDecDefault (q.bytes ++ x) = .ok (q.t, r)) ∧
-        Ty.de q.f.ty q.f.len q.f.enc (some q.t) (q.bytes ++ x) = .ok (q.v, x)
+      q.bytes ≠ [] ∧ (∀ x, ∃ r, tagDecDefault (q.bytes ++ x) = .ok (q.t, r)) ∧
+        ∀ x, (q.strict = true ∨ NoStart q.t x) → Ty.de q.f.ty q.f.len q.f.enc (some q.t) (q.bytes ++ x) = .ok (q.v, x)
    else q.bytes = [] ∧ q.f.ty.isOptional = true ∧ q.v = q.f.ty.dflt)
 
 theorem field_eta (f : Field) : f = .mk f.name f.tag f.len f.enc f.ty := by cases f; rfl
@@ -150,7 +153,7 @@ theorem armFind_tagged : ∀ (pre : List TF) (q : TF) (post : List TF) (i : Nat)
 
 def groupsFrom : Nat → List TF → List Group
   | _, [] => []
-  | base, q :: qs => (if q.present then [⟨q.t, base, q.v, q.bytes⟩] else []) ++ groupsFrom (base + 1) qs
+  | base, q :: qs => (if q.present then [⟨q.t, base, q.v, q.bytes, q.strict⟩] else []) ++ groupsFrom (base + 1) qs
 
 theorem flat_groupsFrom : ∀ (qs : List TF) (base : Nat), (∀ q ∈ qs, q.OK) → flat (groupsFrom base qs) = qs.flatMap (·.bytes) := by
   intro qs
@@ -169,7 +172,7 @@ theorem flat_groupsFrom : ∀ (qs : List TF) (base : Nat), (∀ q ∈ qs, q.OK) 
       simp only [Bool.false_eq_true, if_false, List.nil_append, ih', this.1]
 
 theorem groupsFrom_mem : ∀ (qs : List TF) (base : Nat) (g : Group), g ∈ groupsFrom base qs →
-    ∃ j q, qs[j]? = some q ∧ q.present = true ∧ g = ⟨q.t, base + j, q.v, q.bytes⟩ := by
+    ∃ j q, qs[j]? = some q ∧ q.present = true ∧ g = ⟨q.t, base + j, q.v, q.bytes, q.strict⟩ := by
   intro qs
   induction qs with
   | nil => intro base g h; simp [groupsFrom] at h
@@ -329,7 +332,7 @@ theorem groupOK_of_fields (ps : List PF) (qs : List TF) (hps : ∀ p ∈ ps, p.O
   have hq : q.OK := hqs q (by rw [hsplit]; simp)
   have hq2 := hq.2.2
   simp only [hp, if_true] at hq2
-  refine ⟨hq2.1, fun tail => ⟨(hq2.2 tail).1, ?_⟩⟩
+  refine ⟨hq2.1, hq2.2.1, fun tail hfo => ?_⟩
   simp only
   rw [armFind_skip_pos ps _ q.t 0 _ hps, hsplit]
   have hne : ∀ r ∈ pre, r.t ≠ q.t := by
@@ -339,7 +342,7 @@ theorem groupOK_of_fields (ps : List PF) (qs : List TF) (hps : ∀ p ∈ ps, p.O
     have := (List.nodup_append.mp hnd).2.2 r.t (List.mem_map_of_mem hr) q.t (by simp)
     exact this heq
   rw [armFind_tagged pre q post (0 + ps.length) _ (fun r hr => hqs r (by rw [hsplit]; simp [hr])) hq hne]
-  rw [(hq2.2 tail).2, hlen]
+  rw [hq2.2.2 tail hfo, hlen]
   simp
 
 theorem mem_requiredTags (fs : List Field) (t : Nat) : t ∈ requiredTags fs ↔ ∃ f ∈ fs, f.ty.isOptional = false ∧ f.tag = some t := by
@@ -403,7 +406,7 @@ theorem struct_payload_roundtrip (ps : List PF) (qs : List TF) (hps : ∀ p ∈ 
               simp only [List.mem_cons] at h
               rcases h with h | h
               · subst h
-                exact ⟨⟨q.t, base, q.v, q.bytes⟩, by simp [groupsFrom, hpres], rfl⟩
+                exact ⟨⟨q.t, base, q.v, q.bytes, q.strict⟩, by simp [groupsFrom, hpres], rfl⟩
               · obtain ⟨g, hg, hgt⟩ := ih (base + 1) h
                 exact ⟨g, by simp [groupsFrom, hg], hgt⟩
           obtain ⟨g, hg, hgt⟩ := key qs ps.length hq
